@@ -47,13 +47,27 @@ def run(tier, seed):
             tr = vlib.split_traces(vlib.read_ndjson(tf))
             if tr:
                 v.sample({"history_events": [{k: e[k] for k in e if k in ("ev", "w", "u", "user", "path", "result", "why", "proxy", "bridged", "n")} for e in tr[0][:30]]})
-    v.add_cov(evaluations=stats.get("user", 0) + stats.get("offer", 0),
+    # the accept paths that hand a connection over through a channel (group workers, vhost muxer): the proxy is closed
+    # while the accepting goroutine is parked right before the hand-off
+    mc = vlib.tlc("HandOff", "MC_HandOff.cfg", workers=4, timeout=600)
+    if not mc.ok:
+        raise vlib.Infra(f"ideal hand-off model violates {mc.violated}\n{mc.out[-1500:]}")
+    dev = vlib.tlc("HandOff", "MC_HandOff_dev.cfg", workers=2, timeout=600)
+    if dev.ok or dev.violated != "NoOrphan":
+        raise vlib.Infra("the deviation HandOffLeak is not caught by NoOrphan: the invariant is vacuous")
+    v.add_cov(states=mc.distinct, transitions=mc.generated)
+    hf = d / "handoff.ndjson"
+    p = vlib.run_driver(drv, ["handoff", "-rounds", 2 if tier == "quick" else 8, "-out", hf], timeout=1200)
+    sc.parse_stats(p.stdout, stats)
+    sc.validate(v, "Trace_HandOff", (vlib.SPEC / "Trace_HandOff.cfg").read_text(), hf, "hand-off to a closed proxy")
+    v.add_cov(evaluations=stats.get("user", 0) + stats.get("offer", 0) + stats.get("handoff", 0),
               distinct_nontrivial=stats.get("end", 0) + stats.get("flood", 0) + stats.get("dead", 0) + stats.get("user", 0) - stats.get("bridged", 0),
               rule="histories = a scripted client delivering / withholding / delaying work connections, unsolicited and surplus offers, dead pooled connections, "
                    "1-3 simultaneous user connections on two proxies, and a session end (half of them parked right after close(workConnCh) with a late work connection injected); "
+                   "hand-off: for each of tcp group, tcpmux group, vhost https and vhost tcpmux a control connection (bridged) and a connection whose accepting goroutine is parked at the hook before the hand-off while the proxy is closed (gate), 2 (8) rounds; "
                    "non-trivial = session ends, floods beyond the pool capacity, dead pooled connections and user connections that could not be bridged",
               driver_stats=stats)
-    v.assumptions += ["accept path driven: direct tcp listeners (group / vhost hand-off paths are covered by C13 / C06 checks)",
+    v.assumptions += ["accept paths driven: direct tcp listeners for the pool histories; group workers and the vhost muxer for the hand-off to a closed proxy (HandOff / Trace_HandOff); the visitor listener's hand-off is not gated",
                       "the pool is modelled as a bag (enqueue order of concurrent offers is not observable)",
                       "bounded-time clause checked with userConnTimeout = 1 s + 700 ms slack"]
     v.finish()
